@@ -268,7 +268,11 @@ func genHistory(t *testing.T, tr *vhlib.Trace, r *vhlib.Rand, n int) {
 	w := newWorld(t, limit)
 	defer w.close()
 	tr.Line(fmt.Sprintf("reset limit=%d", limit), "")
+	// revisions start near a byte carry for some keys (the store keeps them as little-endian blobs)
 	lastRev := map[int]uint64{}
+	for k := 0; k < 4; k++ {
+		lastRev[k] = vhlib.Pick[uint64](r, 0, 0, 0, 254, 255, 65534, 65535, 1<<32-2, 1<<40+254, 1<<63-2)
+	}
 	for i := 0; i < n; i++ {
 		switch x := r.Intn(100); {
 		case x < 60:
@@ -285,6 +289,9 @@ func genHistory(t *testing.T, tr *vhlib.Trace, r *vhlib.Rand, n int) {
 				p.rev = base
 			default:
 				p.rev = base + 1 + uint64(r.Intn(2))
+				if r.Chance(1, 6) {
+					p.rev = base + vhlib.Pick[uint64](r, 255, 256, 257, 65536)
+				}
 			}
 			if p.typ == 2 {
 				p.primary = r.Chance(1, 2)
